@@ -1,6 +1,6 @@
 (* C13 - No reply can make a query reserve unbounded memory.
    Rows proved so far: valve::query. *)
-From GD Require Import Base.Prelude Model.Strings Model.Buffer Model.Net Model.Valve Model.Quake Proofs.Msafe Proofs.ValveTotal Proofs.QuakeTotal.
+From GD Require Import Base.Prelude Model.Strings Model.Buffer Model.Net Model.Valve Model.Quake Model.Unreal2 Proofs.Msafe Proofs.ValveTotal Proofs.QuakeTotal Proofs.Unreal2Total.
 
 (* every reservation whose size comes from a field of a reply is at most 1 MiB
    (<= the 16 MiB allowance), for every script *)
@@ -15,6 +15,12 @@ Theorem c13_quake_no_reserve : forall port v t u tc sf, settings_ok t ->
   reserves (snd (Quake.client_query port v t (net_init u tc sf))) = [].
 Proof. exact quake_no_reserve. Qed.
 Print Assumptions c13_quake_no_reserve.
+
+(* Unreal 2: the announced player count reserves at most 50 slots *)
+Theorem c13_unreal2_reserves_bounded : forall port g t u tc sf, settings_ok t ->
+  Forall (fun k => k <= 50) (reserves (snd (u2_query port g t (net_init u tc sf)))).
+Proof. exact u2_reserves_bounded. Qed.
+Print Assumptions c13_unreal2_reserves_bounded.
 
 Example c13_ex_bound : max_decompressed_size = 1048576 /\ max_decompressed_size <= 16 * 1048576.
 Proof. split; [reflexivity|]. unfold max_decompressed_size. discriminate. Qed.
